@@ -646,6 +646,24 @@ def c03_cases(res):
                 t.line(1, "LUSERS")
                 t.meta = {"cfg": cname, "prefix": pre, "probe": probe}
                 traces.append(t)
+    # "exactly that password": long passwords - a password that agrees with the configured one on its first 72 (64, 80) bytes, a proper
+    # prefix, an extension - are wrong passwords (seeded C03-j: the hashing helper looked at the first 72 bytes only)
+    P90 = "correct-horse-battery-staple-" * 3 + "tail-0123456789-abcdefghi"
+    longcfg = Config(password=P90)
+    for k2, pw in enumerate([P90, P90[:72] + "X" * (len(P90) - 72), P90[:80], P90 + "XYZ", P90[:72], P90[:64] + P90[65:] + "q", P90[1:]]):
+        t = Trace("c03-longpw-%d" % k2, longcfg)
+        t.open(0)
+        t.line(0, "PASS " + P90)
+        t.line(0, "NICK bob")
+        t.line(0, "USER bob 8 * :Bob")
+        t.open(1)
+        t.line(1, "PASS " + pw)
+        t.line(1, "NICK zed")
+        t.line(1, "USER zed 8 * :Z")
+        t.line(1, "LUSERS")
+        t.line(0, "ISON zed")
+        t.meta = {"cfg": "longpw", "prefix": ["PASS #%d" % k2], "probe": "-"}
+        traces.append(t)
     # registration refused half-way by a nickname collision that only shows at the end
     for cname, cfg in cfgs:
         for li, probe in enumerate(ALL_VERB_LINES):
@@ -3018,6 +3036,19 @@ def check_C04(res):
         t.line(1, "PRIVMSG #other :still here")
         t.meta = {"victims": "", "preconfigured": False, "part": part}
         probing.append(t)
+    for k2, (cnt, ln) in enumerate([(12, 180), (21, 120)]):
+        t = Trace("C04-long-names-%d" % k2, Config())
+        t.register(0, "observer")
+        t.line(0, "JOIN #big")
+        for c in range(1, cnt + 1):
+            t.register(c, ("N%02d" % c) + "x" * (ln - 3))
+            t.line(c, "JOIN #big")
+        for q in ("NAMES #big", "WHO #big", "NAMES"):
+            t.line(0, q)
+        t.line(cnt, "PART #big")
+        t.line(0, "NAMES #big")
+        t.meta = {"victims": "", "preconfigured": False, "long_names": (cnt, ln)}
+        probing.append(t)
     for k2, ln in enumerate([200, 201, 243]):
         t = Trace("C04-long-nick-%d" % ln, Config())
         for c, nk in enumerate(["alice", "bob", "carol"]):
@@ -3264,6 +3295,28 @@ def check_C05(res):
         tm.line(0, "MODE #m")
         tm.line(2, "PRIVMSG #m :still served")
         traces.append(tm)
+    # operator status held by default (default_user_modes local_oper / oper, no OPER command): dropped with -O / -o, the user leaves,
+    # is killed - the counters move with the status, no handler aborts (seeded C05-j: counted by one predicate, uncounted by another)
+    for k2, dm in enumerate(["O", "o", "Oo", "Oi", "Ow"]):
+        c5 = Config(operators=[dict(name="admin", password="operpass")])
+        c5.default_modes = dm
+        td = Trace("C05-default-oper-%d" % k2, c5)
+        for c, nk in enumerate(["alice", "bob", "carol", "dave"]):
+            td.register(c, nk)
+            td.line(c, "JOIN #room")
+        td.line(0, "MODE alice -O")
+        td.line(0, "PING alive")
+        td.line(1, "MODE bob -o")
+        td.line(1, "MODE bob -O")
+        td.line(1, "PING alive")
+        td.line(2, "QUIT :leaving with the status")
+        td.line(3, "LUSERS")
+        td.line(3, "PRIVMSG #room :still served")
+        td.line(0, "PRIVMSG #room :me too")
+        td.close(3)
+        td.line(0, "LUSERS")
+        td.line(1, "PRIVMSG #room :and me")
+        traces.append(td)
     def orc(t, steps):
         return eof_oracle(t, steps) + inv_oracle(t, steps)
     r = l2_campaign(res, "C05", 0, 0, prof, traces=traces, oracle=orc)
@@ -4024,6 +4077,23 @@ def check_C12(res):
     # a former member is an outsider: the last member of a configured channel (which stays) or of an ordinary one (which goes and
     # is created anew) leaves by PART / KICK / is the only one left after the others went, an invisible user joins, the former
     # member asks (seeded C12-d: the leaver's own channel set kept the name)
+    # an invisible user stays invisible through every user-mode change that does not name 'i': OPER, -o, -O, +w / -w (seeded C12-j:
+    # dropping operator status with -O rebuilt the mode record without the invisible flag)
+    for k2, drops in enumerate([["MODE ghost -O"], ["MODE ghost -o"], ["MODE ghost +w", "MODE ghost -w"], ["MODE ghost -oO+w"]]):
+        t = Trace("c12-mode-keeps-invisible-%d" % k2, Config(operators=[dict(name="admin", password="operpass")]))
+        t.register(0, "alice")
+        t.register(1, "ghost")
+        t.register(2, "carol")
+        t.line(1, "MODE ghost +i")
+        t.line(1, "JOIN #room")
+        t.line(2, "JOIN #room")
+        t.line(1, "OPER admin operpass")
+        for l in drops:
+            t.line(1, l)
+        t.line(1, "MODE ghost")
+        for q in ("WHO ghost", "WHO *", "WHO g*", "WHO #room", "WHOIS ghost", "WHOIS gh*", "NAMES #room", "NAMES", "LUSERS"):
+            t.line(0, q)
+        traces.append(t)
     for k2, how in enumerate(["PART", "KICKSELF", "KICKED"]):
         for chn in ("#pre", "#ord"):
             t = Trace("c12-ex-member-%s-%s" % (how, chn[1:]), Config(channels=[dict(name="#pre", topic="Pre", flags="nt")]))
@@ -5338,7 +5408,7 @@ def check_C20(res):
 import threading
 
 KA_PATTERNS = ["always", "never", "late_ok", "late_bad", "stop_after_2", "odd_token", "chatter_never", "unsolicited_then_never", "stop_after_1_chatter",
-               "slow_register_always", "cap_midsession_always", "empty_token_always", "flood_never"]
+               "slow_register_always", "cap_midsession_always", "empty_token_always", "flood_never", "partial_never", "partial_always"]
 
 
 def ka_client(port, nick, pattern, ping, pong, t_end, out):
@@ -5368,6 +5438,7 @@ def ka_client(port, nick, pattern, ping, pong, t_end, out):
     answered = 0
     next_chatter = 300
     flood_done = 0
+    partial_sent = False
     flooder = None
     flood_stop = []
     if pattern == "unsolicited_then_never":
@@ -5386,7 +5457,7 @@ def ka_client(port, nick, pattern, ping, pong, t_end, out):
         for p in due:
             pending.remove(p)
             try:
-                s.sendall((p[1] + "\r\n").encode())
+                s.sendall((p[1] + ("" if pattern == "partial_always" else "\r\n")).encode())
                 ev.append((now(), "O"))
             except OSError:
                 pass
@@ -5416,6 +5487,14 @@ def ka_client(port, nick, pattern, ping, pong, t_end, out):
         if pattern == "flood_never" and flooder is not None and t >= next_chatter:
             next_chatter = t + 400
             ev.append((now(), "X"))
+        if pattern in ("partial_never", "partial_always") and rec["reg"] is not None and not partial_sent:
+            # a client whose last bytes are an unfinished line (somebody typing): the PING is due all the same
+            partial_sent = True
+            try:
+                s.sendall(b"PRIVMSG nobody :unfinished")
+                ev.append((now(), "X"))
+            except OSError:
+                pass
         if pattern in ("chatter_never", "stop_after_1_chatter") and rec["reg"] is not None and t >= next_chatter:
             next_chatter = t + 300
             try:
@@ -5466,6 +5545,9 @@ def ka_client(port, nick, pattern, ping, pong, t_end, out):
                     reply = (tl, "PONG :" + tok)
                 elif pattern == "odd_token":
                     reply = (tl, ["PONG :something else", "PONG x", "pong :" + tok, "PONG irc.irc :y"][k % 4])
+                elif pattern == "partial_always":
+                    # finishes the pending line, answers, and starts the next unfinished line
+                    reply = (tl, "\r\nPONG :" + tok + "\r\nPRIVMSG nobody :unfinished again")
                 elif pattern == "empty_token_always":
                     reply = (tl, "PONG :")          # a PONG with ANY token answers the PING - also the empty one (seeded C17-f)
                 if reply:
